@@ -297,7 +297,7 @@ func checkInst(t *testing.T, c InstCase) (v harness.Verdict) {
 	if len(adds) != wantAdds {
 		v.Failf("add-endpoints", "%s log exposes submission endpoints %v, want %d of them", kindOfLog(l), adds, wantAdds)
 	}
-	// the endpoints that exist must answer a POST (an empty chain is a bad request, not "no such method")
+	// the endpoints that exist must answer a POST (with whatever verdict on the empty chain, but not "no such method")
 	for _, p := range adds {
 		func() {
 			defer func() {
@@ -311,8 +311,8 @@ func checkInst(t *testing.T, c InstCase) (v harness.Verdict) {
 			if wantAdds == 0 && w.Code != http.StatusMethodNotAllowed && w.Code != http.StatusNotFound {
 				v.Failf("add-endpoints", "%s log answers POST %s with %d", kindOfLog(l), p, w.Code)
 			}
-			if wantAdds == 2 && w.Code != http.StatusBadRequest {
-				v.Failf("add-endpoint-unusable", "POST %s with an empty chain answered %d, want 400", p, w.Code)
+			if wantAdds == 2 && (w.Code == http.StatusMethodNotAllowed || w.Code == http.StatusNotFound) {
+				v.Failf("add-endpoint-unusable", "POST %s with an empty chain answered %d", p, w.Code)
 			}
 		}()
 	}
@@ -422,6 +422,6 @@ func checkInst(t *testing.T, c InstCase) (v harness.Verdict) {
 // Inst is the instance half of C15.
 var Inst = harness.Define(harness.Opts{
 	Name: "instance",
-	Rule: "one well-formed single-log configuration (regular / mirror / frozen / read-only, pool keys, optional public key - matching or not -, with or without a real roots file) set up over the reference backend (0-10 leaves) through ctfex.New; script of 2-9 steps: get-sth, backend grows (published or only staged), GetLatestSignedLogRoot starts failing in one of 7 ways, heals; mirrors get a contract-abiding MirrorSTHStorage stub holding STHs of up to 12 sizes in 0..16 (or none at all). Oracle: set-up fails <=> non-mirror without roots or key mismatch; add-chain/add-pre-chain registered <=> neither mirror nor read-only; frozen log: every get-sth is 200 with exactly the frozen STH; mirror: tree_size served <= published backend size. Every case is non-trivial",
+	Rule: "one well-formed single-log configuration (regular / mirror / frozen / read-only, prefixes with leading / trailing / doubled slashes incl. the bare / and log/, pool keys, optional public key - matching or not -, with or without a real roots file) set up over the reference backend (0-10 leaves) through ctfex.New; script of 2-9 steps: get-sth, backend grows (published or only staged), GetLatestSignedLogRoot starts failing in one of 7 ways, heals; mirrors get a contract-abiding MirrorSTHStorage stub holding STHs of up to 12 sizes in 0..16 (or none at all). Oracle: set-up fails <=> non-mirror without roots or key mismatch; add-chain/add-pre-chain registered <=> neither mirror nor read-only; frozen log: every get-sth is 200 with exactly the frozen STH; mirror: tree_size served <= published backend size. Every case is non-trivial",
 	Quick: 4000, Thorough: 20000, MaxSample: 2500,
 }, genInst, checkInst)
